@@ -97,11 +97,14 @@ def gen_scenario(rng):
   kind = rng.choice(['raise', 'raise', 'short', 'zero', 'over', 'build', 'build'])
   exc = rng.choice(EXC)
   n_fault_calls = 1 if schedule == 'first' else rng.randint(2, 3)
-  meta = {'site': site, 'schedule': schedule, 'kind': kind, 'exc': exc if kind == 'raise' else None}
+  from vv import service as S
+  msg = S.gen_msg_spec(rng) if kind in ('raise', 'build') else None
+  meta = {'site': site, 'schedule': schedule, 'kind': kind, 'exc': exc if kind == 'raise' else None,
+          'msg': (msg[0] if msg else 'plain')}
 
   def fault_entry(count):
     if kind == 'raise':
-      return {'raise': exc}
+      return {'raise': exc, 'msg': msg}
     if kind == 'short':
       return {'delta': -rng.randint(1, count)}
     if kind == 'zero':
@@ -119,7 +122,7 @@ def gen_scenario(rng):
         # the failure happens while the algorithm is being built (policy factory /
         # constructor), i.e. outside policy.suggest(): it is not wrapped in RuntimeError
         if faulty:
-          c['_factory_fault'] = {'site': rng.choice(['factory', 'constructor']), 'raise': exc}
+          c['_factory_fault'] = {'site': rng.choice(['factory', 'constructor']), 'raise': exc, 'msg': msg}
       elif faulty:
         c['_stub_entry'] = fault_entry(count + 6)
       calls.append(c)
@@ -128,7 +131,8 @@ def gen_scenario(rng):
       calls.append({'op': 'SuggestTrials', 'study': study, 'count': 1, 'client': 'w1',
                     '_stub_entry': {'delta': 0}})
       calls.append({'op': 'CheckTrialEarlyStoppingState', 'trial': f'{study}/trials/{rng.randint(1, 2)}',
-                    '_es_entry': {'raise': exc} if (faulty and kind == 'raise') else {}, '_fault': faulty and kind == 'raise'})
+                    '_es_entry': {'raise': exc, 'msg': msg} if (faulty and kind == 'raise') else {},
+                    '_fault': faulty and kind == 'raise'})
   # follow-ups with the fault off
   for _ in range(rng.randint(2, 8)):
     r = rng.random()
@@ -260,18 +264,30 @@ def client_poll_probe(ctx, index):
       del secs
   vizier_client.time = _NoSleep()
   exc = rng.choice(EXC)
-  case = {'probe': 'client-poll', 'exc': exc, 'index': index}
+  msg = S.gen_msg_spec(rng)
+  site = rng.choice(['suggest', 'build'])
+  case = {'probe': 'client-poll', 'exc': exc, 'index': index, 'site': site, 'msg': msg}
   try:
-    ctl.plan.append({'raise': exc})
+    if site == 'build':
+      ctl.factory_faults.append({'site': 'factory', 'raise': exc, 'msg': msg})
+    else:
+      ctl.plan.append({'raise': exc, 'msg': msg})
     try:
-      client.get_suggestions(suggestion_count=2)
+      got = client.get_suggestions(suggestion_count=2)
       first = 'returned'
+      # the algorithm raised: the caller of the client must be told, a normal
+      # return (an empty list reads as "search space exhausted") hides the failure
+      ctx.violation(f'client-failure-not-reported:{site}',
+                    f'the algorithm raised {exc} (text shape {msg[0] if msg else "plain"}, site {site}) but '
+                    f'VizierClient.get_suggestions returned normally with {len(got)} trials', case)
+      return
     except PollCap:
       ctx.violation('client-polls-forever:after-failure', 'get_suggestions exceeded 20 polls on the failing call', case)
       return
     except Exception as e:  # pylint: disable=broad-except
       first = type(e).__name__
     ctl.plan.clear()
+    ctl.factory_faults.clear()
     polls['n'] = 0
     try:
       trials = client.get_suggestions(suggestion_count=2)
@@ -283,7 +299,9 @@ def client_poll_probe(ctx, index):
     except Exception as e:  # pylint: disable=broad-except
       ctx.violation(f'client-retry-raised:{type(e).__name__}', f'retry after {exc} raised {type(e).__name__}: {e}', case)
     ctx.count('client_poll_probes')
-    ctx.case(['client-poll', exc, first], True)
+    ctx.count('client_poll_probes_site_' + site)
+    ctx.count('client_poll_probes_text_' + (msg[0] if msg else 'plain'))
+    ctx.case(['client-poll', exc, first, site, msg[0] if msg else 'plain'], True)
   finally:
     vizier_client.environment_variables.new_suggestion_polling_secs = old
     vizier_client.time = real_time
